@@ -83,7 +83,7 @@ fn ks_definitional(ctx: &mut Ctx, fl: Flavor) {
             wl::iv(&mut ctx.rng, 16)
         }
     } else {
-        wl::ctr_iv(&mut ctx.rng, fl, b)
+        stream_iv(ctx, fl, b)
     };
     ctx.note("flavor", J::s(fl.name()));
     ctx.note("iv", J::s(hex_short(&iv)));
